@@ -1,16 +1,27 @@
 '''C12 Sorting permutes whole rows, orders the keys, and is stable.'''
 from sfa.report import Ctx
+from sfa.rules import sortrules
 from sfa.rules import table
 
 LEVEL_TEXT = (
-    'Static decision of structural clauses of C12: (a) the default sort-kind constants are stable NumPy kinds. Not decided: NumPy sort itself, key-function results, NaN ordering.')
+    'Static decision of the structural clauses of C12: (a) the default sort-kind constants are stable NumPy kinds; (b) every '
+    'np.argsort / np.sort / ndarray.sort in core receives kind= that is the caller\'s own `kind` parameter or a stable constant, and '
+    'every function with a `kind` parameter (14, incl. the Bus and Batch forwards) defaults it to the constant and passes it on '
+    'unmodified; (c) at each of the 5 np.lexsort sites the key list iterates from the last depth/column down to 0, so depth 0 is the '
+    'primary key; (d) each sort result selects labels and values with the same permutation variable and passes the other axis and '
+    'the name through; (e) `ascending` is consumed only by reversing the permutation after the stable ascending sort. '
+    'Not decided: NumPy\'s sort itself, key-function results, NaN ordering.')
 
 CLAIM = dict(
     text=LEVEL_TEXT,
-    technique='constant-table check',
-    design_ref='DESIGN.md section 2.G and section 3 C12',
+    technique='parameter-forwarding dataflow (kind / ascending), iteration-direction check at lexsort sites, label/value co-indexing (PAIR) on the permutation',
+    design_ref='DESIGN.md section 3 C12',
 )
 
 
 def run(ctx: Ctx) -> None:
     table.t4_sortkind(ctx)
+    sortrules.kind_forwarding(ctx)
+    sortrules.lexsort_order(ctx)
+    sortrules.descending_is_reversal(ctx)
+    sortrules.whole_rows(ctx)
